@@ -731,9 +731,9 @@ func TestVerifReplayC14(t *testing.T) {
 	switch {
 	case has("multiReadBucket", "MultiReadBucket", "OverlayReadBucket", "NewErrExistsMultipleLocations", "IsExistsMultipleLocations", "getObjectInfoAndDelegateIndex"):
 		tried += vr14FamilyMulti(ctx, v)
-	case has("filterReadBucketCloser", "FilterReadBucket", "Matcher", "MatchPath"):
+	case has("filterReadBucketCloser", "FilterReadBucket", "Matcher", "MatchPath", "MatchAnd", "MatchOr", "MatchNot"):
 		tried += vr14FamilyFilter(ctx, v)
-	case has("stripReadBucket", "stripObjectInfoExternalPath", "stripReadObjectCloserExternalPath", "StripReadBucketExternalPaths"):
+	case has("stripReadBucket", "newStripReadBucket", "stripObjectInfoExternalPath", "stripReadObjectCloserExternalPath", "StripReadBucketExternalPaths"):
 		tried += vr14FamilyStrip(ctx, v)
 	case has("nopReadBucket"):
 		tried += vr14FamilyNop(ctx, v)
